@@ -4,6 +4,7 @@ width / precision / argument index, 0 terminator), `Argument::new_*`, `fmt::form
 `Formatter::{write_str, write_fmt, write_char, pad}`, `ToString::to_string`.  Display of integers,
 bool, char, str / String / Cow<str>, f64 (shortest round-trip digits, positional, as Rust prints)
 and of crate types through their own `Display::fmt` MIR.  Anything else is `Unsupported`."""
+import re
 from decimal import Decimal
 
 from .minimir import Adt, Panic, Ref, Slice, Unsupported
@@ -189,6 +190,17 @@ def render_value(I, kind, v, typ, opts, depth):
         if kind == "debug":
             return debug_str(sb)
         raise Unsupported("format %s of str" % kind)
+    if (t.startswith("impl ") or re.fullmatch(r"[A-Z][A-Za-z0-9]*", t)) and kind == "display":
+        # a generic parameter: print by the value's runtime kind (a `char` passed through a generic
+        # parameter would be indistinguishable from an integer here and is not expected in this crate)
+        if isinstance(val, bool):
+            return pad(b"true" if val else b"false", opts)
+        if isinstance(val, int):
+            return render_value(I, kind, val, "i128", opts, depth)
+        if isinstance(val, float):
+            return render_value(I, kind, val, "f64", opts, depth)
+        if sb is not None:
+            return pad(bytes(sb), opts)
     # crate types: run their own Display / Debug impl
     trait = {"display": "Display", "debug": "Debug", "lower_hex": "LowerHex", "upper_hex": "UpperHex", "lower_exp": "LowerExp"}[kind]
     for tt in (t, t.split("<")[0]):
